@@ -39,7 +39,11 @@ LEVEL_TEXT = "Seeded exploration of request sessions over generated programs in 
 
 def generate(r, tier):
     big = tier == "thorough"
-    prog = kgen.gen_program(r, hi=18 if big else 11)
+    k = r.random()
+    if k < 0.15:
+        prog = kgen.gen_menu_program(r)  # nested menus: menu visibility is aggregated bottom-up
+    else:
+        prog = kgen.gen_program(r, hi=18 if big else 11, p_nodefault=0.15 if k < 0.4 else 0.0)
     sc = {"prog": prog, "parser": kgen.pick_parser(r, prog, 0.04), "hash_salt": r.getrandbits(32), "policy": r.choice([None, None, "kconfig"]),
           "version": r.choice([1, 2, 2, 3, 3, 3])}
     sc["renames"] = kgen.rename_table(r, prog)[0] if r.random() < 0.2 else None
